@@ -214,6 +214,19 @@ def run(ctx):
                   message=f"{f.name} passes `{norm(arg) if arg is not None else None}` as the session of {callee}",
                   how="passes the region's session object")
 
+    # one transaction per storage call: only the scoped-session context manager commits
+    n_txn = 0
+    for fn in p.iter_funcs(("optuna.storages._rdb.storage",)):
+        if fn.name == "_create_scoped_session" or (fn.cls is not None and fn.cls.name == "_VersionManager"):
+            continue
+        n_txn += 1
+        for c in own_nodes(fn.node):
+            if isinstance(c, ast.Call) and isinstance(c.func, ast.Attribute) and c.func.attr in ("commit", "begin_nested") and "session" in norm(c.func.value):
+                ctx.fail("R03.4", fn.short, f"explicit-{c.func.attr}",
+                         f"{fn.name} calls `{norm(c)}` in the middle of a storage call: what was written so far becomes visible to concurrent readers before the "
+                         f"rest (a half-created trial: row without its values, params or final state)", where=where(fn, c))
+    ctx.floor("R03.4", "rdb_functions_scanned_for_commit", n_txn, 40)
+
     # row locks
     def for_update_call(call: ast.Call, pos: int) -> bool:
         v = kwarg(call, "for_update", pos)
@@ -382,6 +395,55 @@ def run(ctx):
                               f"read-modify-write is not atomic (lost update / stale check)",
                       how="one `with <lock>` region (or one self-locking call) per public method", where=where(f, sections[-1]))
     ctx.floor("R03.7", "public_methods_with_sections", n_single, 43)
+
+    # ---------------------------------------------------------------- R03.10 fetch and merge in one critical section
+    ctx.rule("R03.10", "_CachedStorage / GrpcClientCache: a trial snapshot fetched from the backend is merged into the cache inside the critical "
+             "section it was fetched in (an answer fetched outside the lock can be merged after a newer one: a finished trial turns RUNNING again, "
+             "a reader is handed a state that never existed)")
+    base = p.cls("optuna.storages._base.BaseStorage")
+    fetchers = {m for c in (base, p.cls(RDB)) if c is not None for m, f in c.methods.items()
+                if f.node.returns is not None and "FrozenTrial" in norm(f.node.returns)}
+    fetchers |= {"GetTrials", "GetTrial"}  # gRPC stub spellings
+    n_fm = 0
+    for info in (cs, gc):
+        mutators = {m for m, accs in info.accesses.items() if any(a.kind in ("write", "mutate") and a.field in info.guarded for a in accs)}
+        for mname, f in sorted(info.methods.items()):
+            pm = parent_map(f.node)
+
+            def section(n):
+                for a in ancestors(n, pm):
+                    if isinstance(a, ast.With) and any(self_attr(i.context_expr) == info.lock for i in a.items):
+                        return a
+                return None
+            fetched = {}
+            for n in own_nodes(f.node):
+                if isinstance(n, ast.Assign) and len(n.targets) == 1 and isinstance(n.targets[0], ast.Name):
+                    calls = [c for c in ast.walk(n.value) if isinstance(c, ast.Call) and isinstance(c.func, ast.Attribute) and c.func.attr in fetchers
+                             and not (isinstance(c.func.value, ast.Name) and c.func.value.id == "self")]
+                    if calls:
+                        fetched[n.targets[0].id] = n
+            if not fetched:
+                continue
+            mut_nodes = {id(a.node) for a in info.accesses.get(mname, []) if a.kind in ("write", "mutate") and a.field in info.guarded}
+            for st in own_nodes(f.node):
+                if not isinstance(st, (ast.Assign, ast.AugAssign, ast.Expr, ast.For)):
+                    continue
+                hdr = st.iter if isinstance(st, ast.For) else st
+                used = {x.id for x in ast.walk(hdr) if isinstance(x, ast.Name) and x.id in fetched and isinstance(x.ctx, ast.Load)}
+                if not used:
+                    continue
+                merges = any(id(x) in mut_nodes for x in ast.walk(st)) or any(
+                    isinstance(c, ast.Call) and self_attr(c.func) in mutators for c in ast.walk(hdr))
+                if not merges:
+                    continue
+                for v in sorted(used):
+                    n_fm += 1
+                    ctx.check(section(st) is section(fetched[v]), "R03.10", f.short, f"fetch-and-merge-in-one-section:{v}",
+                              message=f"{info.cls.name}.{mname} fetches `{v}` from the backend in one critical section (line {fetched[v].lineno}) and merges it into the "
+                                      f"cache in another (line {st.lineno}): between the two another thread can merge a newer answer, which this older one then "
+                                      f"overwrites - a trial seen COMPLETE is RUNNING again for later readers",
+                              how="the fetch and the statement that stores it sit in the same `with <lock>` block", where=where(f, st))
+    ctx.floor("R03.10", "fetch_merge_pairs", n_fm, 2)
 
     # ---------------------------------------------------------------- R03.6 uniqueness constraints
     ctx.rule("R03.6", "RDB: the uniqueness the contract relies on under concurrent writers is declared in the schema "
